@@ -22,7 +22,20 @@ class ExactNode(Node):
         """
         Initialise the servers
         """
-        return [Server(self, i + 1, Decimal("0.0")) for i in range(self.c)]
+        servers = [Server(self, i + 1, Decimal("0.0")) for i in range(self.c)]
+        for srvr in servers:
+            srvr.busy_time = Decimal("0.0")
+        return servers
+
+    def add_new_servers(self, num_servers):
+        """
+        Add appropriate amount of servers for the given shift
+        """
+        for i in range(num_servers):
+            self.highest_id += 1
+            srvr = Server(self, self.highest_id, self.now)
+            srvr.busy_time = Decimal("0.0")
+            self.servers.append(srvr)
 
     def increment_time(self, original, increment):
         """
